@@ -4,6 +4,7 @@ package rules
 import (
 	"fmt"
 	"go/constant"
+	"go/token"
 	"go/types"
 	"sort"
 	"strings"
@@ -24,6 +25,9 @@ type Run struct {
 	cfMemo     map[string]*CoreFlow
 	mpMemo     map[string]*MethodPaths
 	inlineMemo map[*ssa.Function]bool
+	depthSpecs int
+	// per twin constructor, whether each C15 rule family held (written by C15, read by C12.W4)
+	c15Twin [2]map[string]bool
 }
 
 func NewRun(p *core.Prog, tier string) *Run {
@@ -119,9 +123,9 @@ func specsFor(r *Run, f *ssa.Function) []core.Spec {
 		if c, ok := args[i].(*ssa.Const); ok && c.Value != nil {
 			return []constant.Value{c.Value}, true
 		}
-		if prm, ok := args[i].(*ssa.Parameter); ok && depthSpecs < 2 {
-			depthSpecs++
-			defer func() { depthSpecs-- }()
+		if prm, ok := args[i].(*ssa.Parameter); ok && r.depthSpecs < 2 {
+			r.depthSpecs++
+			defer func() { r.depthSpecs-- }()
 			var vals []constant.Value
 			for _, csp := range specsFor(r, prm.Parent()) {
 				v, bound := csp[prm]
@@ -185,8 +189,6 @@ func specsFor(r *Run, f *ssa.Function) []core.Spec {
 	sort.Slice(out, func(i, j int) bool { return out[i].String(f) < out[j].String(f) })
 	return out
 }
-
-var depthSpecs int
 
 func isNamed(t types.Type) bool { _, ok := t.(*types.Named); return ok }
 
@@ -555,6 +557,44 @@ func returnsFlagCAS(mm *core.MapModel, g *ssa.Function) bool {
 		n++
 		if len(ret.Results) != 1 {
 			ok = false
+			return
+		}
+		// 'return false' gives the flag up without owning it (after waiting): fine; 'return true' must lie behind the
+		// winning edge of the CAS (a step function holding the whole wait-and-retry loop: beginResize)
+		if b, isConst := core.ConstBool(ret.Results[0]); isConst {
+			if !b {
+				return
+			}
+			won := false
+			core.Instrs(g, func(in2 ssa.Instruction) {
+				iff, isIf := in2.(*ssa.If)
+				if !isIf {
+					return
+				}
+				cond := iff.Cond
+				neg := false
+				if u, isU := cond.(*ssa.UnOp); isU && u.Op == token.NOT {
+					cond, neg = u.X, true
+				}
+				c, isCall := cond.(*ssa.Call)
+				if !isCall {
+					return
+				}
+				if op, addr, isAt := core.AtomicOp(c); !isAt || op != "CAS" || !mm.IsFlag(core.Addr(addr)) {
+					return
+				}
+				edge := 0
+				if neg {
+					edge = 1
+				}
+				t := iff.Block().Succs[edge]
+				if len(t.Preds) == 1 && (t == ret.Block() || t.Dominates(ret.Block())) {
+					won = true
+				}
+			})
+			if !won {
+				ok = false
+			}
 			return
 		}
 		c, isCall := ret.Results[0].(*ssa.Call)
